@@ -113,6 +113,11 @@ def stepSt (st : St) (w : List String) : St × String :=
       else if opn == "oa_assign" then runOp st (.oaSet i src false)
       else if opn == "fa_new" then runOp st (.faSet i src true)
       else if opn == "fa_assign" then runOp st (.faSet i src false)
+      else if opn == "fa_assign_fail1" || opn == "fa_assign_fail2" then
+        -- the assignment's allocation fails: same preconditions, nothing changes
+        (match step Cfg.fixed st.m (.faSet i src false) with
+         | some _ => (st, "bad_alloc")
+         | none => (st, "pre"))
       else bad
     | _, _ =>
       -- the other four-word operations
